@@ -131,7 +131,7 @@ def check(ctx):
         ce = r.ce()
         if r.q.name == 'h_uci_roundtrip':
             exe = ctx.native_bin('uci_replay', [os.path.join(VERIF, 'native', 'uci_replay.cpp')], ['position', 'movegen', 'move_bitboards', 'bithacks', 'types', 'zobrist_hash', 'bitbase', 'endgame'])
-            args = [str(ce.get('ce_side', 0)), str(ce.get('ce_aux', 0)), str(ce.get('ce_aux2', 0)), str(ce.get('ce_mv', 0))]
+            args = [str(ce.get('ce_side', 0)), str(ce.get('ce_aux', 0)), str(ce.get('ce_aux2', 0)), str(ce.get('ce_mv', 0)), str(ce.get('ce_cr', 0))]
             out = ctx.sh([exe] + args, ok=(0, 1))
             txt = ''.join(chr(ce.get('ce_txt', {}).get(i, 0)) for i in range(min(8, ce.get('ce_txtlen', 0))))
             path = report.save_replay(ctx, r.q.name, {'harness': r.q.name, 'side': ce.get('ce_side'), 'piece on the from-square': ce.get('ce_aux'), 'square': ce.get('ce_aux2'), 'move': ce.get('ce_mv'), 'text in the model': txt, 'parsed back in the model': ce.get('ce_mv2'),
@@ -153,5 +153,5 @@ def check(ctx):
         return {'confirmed': 'REPRODUCED' in out and 'NOT-REPRODUCED' not in out, 'key': r.q.name, 'path': path, 'text': '%s inputs %s | %s' % (r.q.name, ce, out.strip()[:200])}
     return report.finish(ctx, res, wit, replay=replay,
         assumptions=['FEN round trip (h_fen_*): Position::fen() and Position::Position(std::string) as compiled; std::string = (pointer, length), ostringstream/istringstream = a character buffer with blank-separated tokens in which a number is ONE token (decimal formatting/parsing by libstdc++ is outside the claim), std::map<char,Piece> = search in the initializer array the real code builds; HashKey::init stubbed (key equality of equal positions is C04); ply counter odd exactly when White is to move (constructor and do_move keep that)',
-                     'move text round trip (h_uci_roundtrip): Position::uci and Position::parse_uci as compiled on an ARBITRARY board with any move of legal shape (superset of legal moves in legal positions: castling needs the king at home, a non-castling king move covers one square, promotion pieces N/B/R/Q); std::string by the same model; a throw from parse_uci counts as failure'],
+                     'move text round trip (h_uci_roundtrip): Position::uci and Position::parse_uci as compiled on an ARBITRARY board with any move of legal shape (superset of legal moves in legal positions: castling needs the king at home and the right of the mover for that side, other rights arbitrary; a non-castling king move covers one square; promotion pieces N/B/R/Q); std::string by the same model; a throw from parse_uci counts as failure'],
         bounds={'fields': 'all (from, to) in 0..63, promotion in {none, N, B, R, Q}, both castling codes; move-info: captured 0..6, rights 0..15, ep 0..64, flag, clock 0..255', 'loops': 'none'})
